@@ -304,4 +304,76 @@ theorem evict_no_half (marks' : Marks) (rn : Bytes → Bool) (low : Nat) : ∀ (
       · have hrn' : rn x.path = false := by simpa using hrn
         simp only [hrn', Bool.not_false, if_true]; exact ih t
 
+/-! ### marks that change during the loop -/
+
+/-- With the same marks at every test `evictP` is `evict`. -/
+theorem evictP_const (marks' : Marks) (rn rm : Bytes → Bool) (low : Nat) : ∀ (l : List Entry) (t : Nat),
+    evictP rn rm low (l.map fun e => (e, marks')) t = evict marks' rn rm low l t := by
+  intro l
+  induction l with
+  | nil => intro t; rfl
+  | cons x xs ih =>
+    intro t
+    simp only [List.map_cons, evictP, evict]
+    by_cases hm : (marks' x.path).isSome = true
+    · simp only [hm, if_true, ih]
+    · simp only [hm, Bool.false_eq_true, if_false]
+      by_cases hrn : rn x.path = true
+      · simp only [hrn, Bool.not_true, Bool.false_eq_true, if_false]
+        by_cases hrm : rm x.path = true
+        · simp only [hrm, Bool.not_true, Bool.false_eq_true, if_false]
+          by_cases hl : t - x.size < low
+          · rw [if_pos hl, if_pos hl]; simp [Function.comp_def]
+          · rw [if_neg hl, if_neg hl, ih]
+        · have hrm' : rm x.path = false := by simpa using hrm
+          simp only [hrm', Bool.not_false, if_true, ih]
+      · have hrn' : rn x.path = false := by simpa using hrn
+        simp only [hrn', Bool.not_false, if_true, ih]
+
+/-- Whenever the marks arrive: every entry that is renamed (evicted or half-removed) was unmarked at its own test. -/
+theorem evictP_unmarked (rn rm : Bytes → Bool) (low : Nat) : ∀ (l : List (Entry × Marks)) (t : Nat),
+    ∀ e, e ∈ (evictP rn rm low l t).evicted ∨ e ∈ (evictP rn rm low l t).half →
+      ∃ m, (e, m) ∈ l ∧ m e.path = none := by
+  intro l
+  induction l with
+  | nil => intro t e he; simp [evictP] at he
+  | cons p ps ih =>
+    obtain ⟨x, m⟩ := p
+    intro t e he
+    have lift : (∃ m', (e, m') ∈ ps ∧ m' e.path = none) → ∃ m', (e, m') ∈ (x, m) :: ps ∧ m' e.path = none :=
+      fun ⟨m', h1, h2⟩ => ⟨m', List.mem_cons_of_mem _ h1, h2⟩
+    simp only [evictP] at he
+    by_cases hm : (m x.path).isSome = true
+    · simp only [hm, if_true] at he; exact lift (ih t e he)
+    · have hxm : m x.path = none := by
+        cases h : m x.path with
+        | none => rfl
+        | some v => simp [h] at hm
+      simp only [hm, Bool.false_eq_true, if_false] at he
+      by_cases hrn : rn x.path = true
+      · simp only [hrn, Bool.not_true, Bool.false_eq_true, if_false] at he
+        by_cases hrm : rm x.path = true
+        · simp only [hrm, Bool.not_true, Bool.false_eq_true, if_false] at he
+          by_cases hl : t - x.size < low
+          · rw [if_pos hl] at he
+            rcases he with h | h
+            · simp only [List.mem_cons, List.mem_nil_iff, or_false] at h
+              subst h; exact ⟨m, List.mem_cons_self .., hxm⟩
+            · cases h
+          · rw [if_neg hl] at he
+            simp only [List.mem_cons] at he
+            rcases he with (h | h) | h
+            · subst h; exact ⟨m, List.mem_cons_self .., hxm⟩
+            · exact lift (ih _ e (Or.inl h))
+            · exact lift (ih _ e (Or.inr h))
+        · have hrm' : rm x.path = false := by simpa using hrm
+          simp only [hrm', Bool.not_false, if_true, List.mem_cons] at he
+          rcases he with h | h | h
+          · exact lift (ih t e (Or.inl h))
+          · subst h; exact ⟨m, List.mem_cons_self .., hxm⟩
+          · exact lift (ih t e (Or.inr h))
+      · have hrn' : rn x.path = false := by simpa using hrn
+        simp only [hrn', Bool.not_false, if_true] at he
+        exact lift (ih t e he)
+
 end PlzVerif.Clean
